@@ -236,7 +236,7 @@ def rich_array(rng, depth=0):
             it, isl = rich_array(rng, 1)
             q = rng.random()
             if q < 0.3:
-                m = rng.randint(2, 6)
+                m = rep_count(rng, 2, 6)
                 parts.append("%dx%s" % (m, it)); slots += ["R:%d:0" % m] + isl
             elif q < 0.45 and j == 0 and n == 1:
                 parts.append(it + sep(rng, False) + "..."); slots += ["R:0:0"] + isl
@@ -274,7 +274,7 @@ def rich_array(rng, depth=0):
             k2 = rng.choice("ihc")
             q = rng.random()
             if q < 0.3:
-                m = rng.randint(2, 5)
+                m = rep_count(rng, 2, 5)
                 v = rng.randint(60, 90) if k2 == "c" else rng.randint(-30, 30)
                 parts.append("%dx%s" % (m, _lit(k2, v))); slots += ["R:%d:0" % m, "%s:%d" % (k2, v)]
                 prev = (k2, v); last_ty = ord(k2)
@@ -390,6 +390,12 @@ def run_end_array(rng):
     nxt = b + d * n
     return text + sep(rng) + _tlit(k, nxt), ["a:%d:%d" % (ord(k), len(slots))] + slots + ["%s:%d" % (k, nxt)]
 
+# repetition counts: every digit pattern of "<n>x" (a zero digit inside: 10 20 30 100 101 105 110)
+REP_COUNTS = [10, 20, 30, 100, 101, 105, 110, 5, 6, 7, 8, 9, 11, 12, 99, 112]
+
+def rep_count(rng, lo, hi):
+    return rng.choice(REP_COUNTS) if rng.random() < 0.4 else rng.randint(lo, hi)
+
 def structured(rng):
     """ranges, repetitions, arrays: (text, slots)"""
     q = rng.random()
@@ -405,7 +411,7 @@ def structured(rng):
         return run_end_array(rng)
     q = rng.random()
     if q < 0.3:
-        n = rng.randint(1, 9)
+        n = rep_count(rng, 1, 9)
         t, sl = word(rng)
         while sl is None or " " in t or "\n" in t or t[0] in "+-0123456789." and False:
             t, sl = word(rng)
